@@ -150,6 +150,11 @@ func (x *c18Exec) compare(op token.Token, a, b c18Val, at ast.Node) c18Val {
 			}
 			return c18Unk("`%s` orders strings that are not both decided", x.src(at))
 		}
+		if sym := func(v c18Val) bool { return v.org == c18OEntryKey || v.org == c18OOtherKey }; sym(a) || sym(b) {
+			// keys of witness tags: the entry's key equals itself only (`area` and the other constants the code
+			// mentions are not rule keys: L1), an unrelated key equals itself only
+			return bv((a.org == b.org && a.s == b.s) == eq)
+		}
 		if a.org == c18OEntryKey || b.org == c18OEntryKey {
 			return c18Unk("`%s` compares the entry's key, which is symbolic", x.src(at))
 		}
@@ -183,7 +188,7 @@ func (x *c18Exec) compare(op token.Token, a, b c18Val, at ast.Node) c18Val {
 			case op == token.NEQ && c < 1, op == token.GTR && c < 1, op == token.GEQ && c <= 1:
 				return bv(true)
 			}
-			return c18Unk("`%s` depends on the length of a tag value", x.src(at))
+			return c18Unk("`%s` depends on the length of a tag value or on the number of tags beyond empty / not empty", x.src(at))
 		}
 		return bv(c18CmpInt(op, a.i, b.i))
 	case a.k == c18KBool && b.k == c18KBool && eqOp:
@@ -196,7 +201,7 @@ func (x *c18Exec) compare(op token.Token, a, b c18Val, at ast.Node) c18Val {
 		switch o.k {
 		case c18KNil:
 			return bv(eq)
-		case c18KRecv, c18KEntry, c18KNode:
+		case c18KRecv, c18KEntry, c18KNode, c18KTagRec:
 			return bv(!eq)
 		}
 	}
